@@ -12,6 +12,10 @@ package config
 //@   assume wrapper of glob.Glob (C20 proves Glob against its specification); abstracted to a predicate of the two strings
 //@   pure
 //@   ensures r <==> hostMatches(bytes(pattern), bytes(input))
+// proved against the body: it is exactly one call of glob.Glob with the PATTERN as the pattern and the INPUT as the
+// input (not swapped), and its verdict is returned unchanged
+//@   property C20
+//@   proves callcount(glob.Glob) == 1 && same(argof(glob.Glob, pattern), pattern) && same(argof(glob.Glob, input), input) && r == resultof(glob.Glob, result)
 
 // mergeTimes[h] counts how many times host block h was merged into a result (bookkeeping of MergeWith calls).
 //@ ghost mergeTimes map[Ref]int
